@@ -11,6 +11,7 @@
 #include <set>
 #include <vector>
 #include <algorithm>
+#include <any>
 #include <sys/mman.h>
 
 using rt::Elem;
@@ -22,7 +23,7 @@ namespace {
 struct Cover {
     std::map<std::string, uint64_t> opCount;
     std::map<std::string, uint64_t> lengths;   // buckets of lengths at which arrays were constructed
-    uint64_t histories = 0, ops = 0, nontrivialCases = 0, compared = 0, zeroLength = 0, hugeArrays = 0, hugeSkipped = 0;
+    uint64_t histories = 0, ops = 0, nontrivialCases = 0, compared = 0, zeroLength = 0, hugeArrays = 0, hugeSkipped = 0, nestedElementRuns = 0;
     std::vector<uint64_t> fps;
     std::vector<std::string> samples;
 } C;
@@ -407,6 +408,69 @@ void runCase(uint64_t seed, int steps) {
 } // namespace
 
 
+// ------------------------------------------------------------------ element types that refer back to arrays
+// (a) an Array assigned from an Array that one of its own elements owns (a tree node whose children are an Array of nodes:
+//     `root.kids = root.kids[1].kids`): the source must be read before the target's elements die;
+// (b) elements with an initializer_list constructor that could swallow a copy (std::vector<std::any>): every copying path
+//     copies the element, it does not wrap it.
+struct TreeNode {
+    int v = 0;
+    tulz::Array<TreeNode> kids;
+    TreeNode() = default;
+    explicit TreeNode(int x) : v(x) {}
+};
+void runNestedCase(rt::Rng rng) {
+    char d[160];
+    if (rng.chance(500)) {
+        int n = (int) rng.range(2, 5), pick = (int) rng.below((uint64_t) n), m = (int) rng.range(1, 4);
+        snprintf(d, sizeof d, "tree: root.kids (%d nodes) = root.kids[%d].kids (%d nodes)", n, pick, m);
+        gHist = d;
+        rt::crumb("%s", d);
+        TreeNode root(1);
+        root.kids = tulz::Array<TreeNode>((size_t) n);
+        for (int i = 0; i < n; ++i) {
+            root.kids[(size_t) i].v = 10 * (i + 1);
+            root.kids[(size_t) i].kids = tulz::Array<TreeNode>((size_t) m);
+            for (int k = 0; k < m; ++k) root.kids[(size_t) i].kids[(size_t) k].v = 100 * (i + 1) + k;
+        }
+        root.kids = root.kids[(size_t) pick].kids;
+        if (root.kids.size() != (size_t) m) fail("model-mismatch", "assign-from-own-element", std::string(d) + ": " + std::to_string(root.kids.size()) + " nodes afterwards");
+        else for (int k = 0; k < m; ++k)
+            if (root.kids[(size_t) k].v != 100 * (pick + 1) + k || root.kids[(size_t) k].kids.size() != 0) { fail("model-mismatch", "assign-from-own-element", std::string(d) + ": node " + std::to_string(k) + " holds " + std::to_string(root.kids[(size_t) k].v) + ", expected " + std::to_string(100 * (pick + 1) + k)); break; }
+    } else {
+        using Row = std::vector<std::any>;
+        size_t w = (size_t) rng.range(2, 5), n = (size_t) rng.range(1, 6);
+        snprintf(d, sizeof d, "Array<std::vector<std::any>>: %zu rows of %zu values through every copying path", n, w);
+        gHist = d;
+        rt::crumb("%s", d);
+        Row row;
+        for (size_t i = 0; i < w; ++i) row.emplace_back((int) i + 7);
+        auto rowsOk = [&](const tulz::Array<Row> &a, size_t want, const char *what) {
+            if (gCaseFailed) return;
+            if (a.size() != want) return fail("model-mismatch", what, std::string(d) + ": size " + std::to_string(a.size()) + " after " + what);
+            for (size_t i = 0; i < want; ++i)
+                if (a[i].size() != w || a[i][0].type() != typeid(int) || std::any_cast<int>(a[i][0]) != 7) return fail("model-mismatch", what, std::string(d) + ": row " + std::to_string(i) + " has " + std::to_string(a[i].size()) + " value(s) after " + what + " (an element was wrapped instead of copied)");
+        };
+        tulz::Array<Row> filled(n, row);
+        rowsOk(filled, n, "fill-construct");
+        tulz::Array<Row> copy(filled);
+        rowsOk(copy, n, "copy-construct");
+        tulz::Array<Row> assigned;
+        assigned = filled;
+        rowsOk(assigned, n, "copy-assign");
+        std::vector<Row> src(n, row);
+        tulz::Array<Row> fromPtr(src.data(), n);
+        rowsOk(fromPtr, n, "pointer+length");
+        tulz::Array<Row> ilist{row, row};
+        rowsOk(ilist, 2, "initializer-list");
+        filled.resize(n + 3, row);
+        rowsOk(filled, n + 3, "resize-value-grow");
+    }
+    ++C.nestedElementRuns;
+    ++C.histories;
+    if (!gCaseFailed) { ++C.nontrivialCases; rt::Hash h; for (char c : gHist) h.add((uint64_t) c); C.fps.push_back(h.get()); }
+}
+
 // ------------------------------------------------------------------ lengths beyond 2^31 and 2^32 elements
 // "for every length": an arithmetic Array of 2^31+k or 2^32+k elements (about 2-4 GiB) goes through pointer+length
 // construction, copy construction, copy assignment, move, growing and shrinking resize and the fill constructor; marker
@@ -501,6 +565,7 @@ int main(int argc, char **argv) {
             else runHugeCase<unsigned char>(c, ((size_t) 1 << 31) + k, "unsigned char");
             continue;
         }
+        if (rng.chance((unsigned) rt::optInt("nested", 3))) { runNestedCase(rng); continue; }
         const std::string &t = tl[rng.below(tl.size())];
         int steps = (int) (rng.chance(300) ? rng.range(1, 10) : rng.range(8, maxSteps));
         uint64_t s = rng.next();
@@ -516,7 +581,7 @@ int main(int argc, char **argv) {
     rt::dumpFingerprints(C.fps);
     auto &R = LifeRegistry::get();
     rt::finish(rt::Json().kv("engine", "h_array").kv("histories", C.histories).kv("ops", C.ops)
-                   .kv("nontrivialCases", C.nontrivialCases).kv("stateComparisons", C.compared).kv("zeroLength", C.zeroLength).kv("arraysOver2G", C.hugeArrays).kv("hugeSkipped", C.hugeSkipped)
+                   .kv("nontrivialCases", C.nontrivialCases).kv("stateComparisons", C.compared).kv("zeroLength", C.zeroLength).kv("nestedElementRuns", C.nestedElementRuns).kv("arraysOver2G", C.hugeArrays).kv("hugeSkipped", C.hugeSkipped)
                    .kv("trackedCtors", R.ctor).kv("trackedDtors", R.dtor).kv("trackedMoves", R.moves)
                    .raw("opCount", rt::jsonCounts(C.opCount)).raw("lengths", rt::jsonCounts(C.lengths))
                    .raw("samples", rt::jsonArray(C.samples, false)));
